@@ -229,12 +229,20 @@ fn balances_of(journal: &Journal<EmptyDB>, n_addr: u64) -> Vec<Option<U256>> {
     (1..=n_addr).map(|i| journal.inner.state.get(&addr(i)).map(|a| a.info.balance)).collect()
 }
 
-/// journal <cp> <tx> <nstate> {addr bal deleg}* <nentries> {entry}* <nbb> {k a}* <nsnap> {k a bal}*
-/// impl:  d:<addr>:<before>:<final>,.. (sorted by address)  bb:<balance_before_entry(k, a)>,..
-pub fn journal_case(rng: &mut Rng, i: u64, inp: &mut String, out: &mut String) {
-    let malformed = i % 4 == 3;
+pub struct JournalCase {
+    pub cp: JournalCheckpoint,
+    pub tx: TxEnv,
+    /// (journal length, balances of addresses 1..=n_addr) recorded while driving the journal
+    pub snaps: Vec<(usize, Vec<Option<U256>>)>,
+    pub n_addr: u64,
+}
+
+/// Drive `journal` (revm's real journal over an empty database): accounts 1..=6 with random
+/// balances / designators, a few pre-checkpoint entries, the execution checkpoint, then random
+/// balance-moving operations through the public API (or, for `malformed`, arbitrary entries
+/// pushed directly).  `given_tx` fixes the transaction (caller must be one of 1..=6).
+pub fn build_journal(rng: &mut Rng, malformed: bool, journal: &mut Journal<EmptyDB>, given_tx: Option<TxEnv>) -> JournalCase {
     let n_addr = 8u64;
-    let mut journal = Journal::<EmptyDB>::new(EmptyDB::default());
     // AccountDestroyed is only journaled before Cancun or for accounts created in this tx
     let spec = if rng.chance(1, 2) { SpecId::PRAGUE } else { SpecId::SHANGHAI };
     journal.set_spec_id(spec);
@@ -256,16 +264,19 @@ pub fn journal_case(rng: &mut Rng, i: u64, inp: &mut String, out: &mut String) {
     }
     // addresses 7, 8 are loaded from the (empty) database on first use
 
-    let caller = addr(1 + rng.below(6));
-    let target = addr(1 + rng.below(n_addr));
-    let mut tx = TxEnv {
-        caller,
-        kind: if rng.chance(1, 5) { TxKind::Create } else { TxKind::Call(target) },
+    let mut tx = given_tx.unwrap_or_else(|| TxEnv {
+        caller: addr(1 + rng.below(6)),
+        kind: if rng.chance(1, 5) { TxKind::Create } else { TxKind::Call(addr(1 + rng.below(n_addr))) },
         value: match rng.below(4) {
             0 => U256::ZERO,
             _ => U256::from(rng.range(1, 40)),
         },
         ..Default::default()
+    });
+    let caller = tx.caller;
+    let target = match tx.kind {
+        TxKind::Call(t) => t,
+        TxKind::Create => addr(1 + rng.below(n_addr)),
     };
 
     let mut snaps: Vec<(usize, Vec<Option<U256>>)> = Vec::new();
@@ -416,12 +427,13 @@ pub fn journal_case(rng: &mut Rng, i: u64, inp: &mut String, out: &mut String) {
             journal.balance_incr(caller, U256::from(rng.below(100))).unwrap();
         }
     }
-    let entries: Vec<JournalEntry> = journal.inner.journal.clone();
     // keep only snapshots that are still consistent with the surviving journal
-    snaps.retain(|(k, _)| *k <= entries.len());
+    let len = journal.inner.journal.len();
+    snaps.retain(|(k, _)| *k <= len);
+    JournalCase { cp, tx, snaps, n_addr }
+}
 
-    write!(inp, "journal {:x}", cp.journal_i).unwrap();
-    write_tx(inp, &tx);
+fn write_state(inp: &mut String, journal: &Journal<EmptyDB>) {
     let mut state: Vec<(Address, U256, bool)> = journal
         .inner
         .state
@@ -433,6 +445,19 @@ pub fn journal_case(rng: &mut Rng, i: u64, inp: &mut String, out: &mut String) {
     for (a, b, d) in &state {
         write!(inp, " {} {:x} {}", addr_id(*a), b, *d as u8).unwrap();
     }
+}
+
+/// journal <cp> <tx> <nstate> {addr bal deleg}* <nentries> {entry}* <nbb> {k a}* <nsnap> {k a bal}*
+/// impl:  d:<addr>:<before>:<final>,.. (sorted by address)  bb:<balance_before_entry(k, a)>,..
+pub fn journal_case(rng: &mut Rng, i: u64, inp: &mut String, out: &mut String) {
+    let malformed = i % 4 == 3;
+    let mut journal = Journal::<EmptyDB>::new(EmptyDB::default());
+    let JournalCase { cp, tx, snaps, n_addr } = build_journal(rng, malformed, &mut journal, None);
+    let entries: Vec<JournalEntry> = journal.inner.journal.clone();
+
+    write!(inp, "journal {:x}", cp.journal_i).unwrap();
+    write_tx(inp, &tx);
+    write_state(inp, &journal);
     write_entries(inp, &entries);
 
     // --- real scan ---
